@@ -59,26 +59,39 @@ Theorem C05_cte_partial : forall rel cols,
 Proof. exact cte_rehome_attrs. Qed.
 Print Assumptions C05_cte_partial.
 
-(** ** Refinement to the reference semantics, with types.  [col_rel x c]: the
-    reference row entry x and sqlc's result column c have the same name, and if
-    x comes from a catalog column, c has that column's data type, nullability
-    and array-ness.  For SELECT <stars and column references> FROM <base
-    tables, aliased or not> sqlc and the reference semantics accept the same
-    statements and their rows are related column by column - directly, through
-    an alias, through a star, renamed with AS. *)
+(** ** Refinement to the reference semantics, with types.  [row_rel x c]: the
+    reference row entry x and sqlc's result column c have the same name (or x,
+    an un-aliased expression, has none), and if x comes from a catalog column,
+    c has that column's data type, nullability and array-ness.  For a simple
+    SELECT sqlc and the reference semantics accept the same statements and
+    their rows are related column by column - whether the column is referenced
+    directly, through an alias, through a star, or renamed with AS.
+    The statements covered ("simple SELECT"): SELECT <targets> FROM <base
+    tables, each with or without alias> [WHERE / GROUP BY / HAVING / ORDER BY]
+    with no WITH clause, no join, no sub-select; every target a star (bare or qualified by a
+    relation name), a column reference (c or t.c, with or without AS) or an expression
+    that is not a column reference, CASE, COALESCE, sub-select or cast
+    ([target_ok]).  [strict] / [deep] select how much the reference semantics
+    checks: strict = every column reference of every clause must resolve
+    (PostgreSQL) - the theorem then needs clauses without column references -,
+    non-strict = only what property C10 lists (columns paired with a parameter:
+    none here); deep = references inside result expressions must resolve - the
+    theorem then needs result expressions without inner references -, non-deep =
+    only targets that ARE references.  The hypotheses on [from_items],
+    [level_refs], [level_subselects] state these shape facts about the AST. *)
 Theorem C05_level_types_partial : forall e sc tables targets,
   scope_rel_t sc tables -> NoDup (map si_name sc) ->
   Forall (fun it => NoDup (map sc_name (si_cols it))) sc ->
-  Forall (simple_target sc) targets ->
+  Forall (target_ok sc) targets ->
   match row_of sc [sc] targets, targets_columns e tables targets with
-  | POk row, Ok cols => Forall2 col_rel row cols
+  | POk row, Ok cols => Forall2 row_rel row cols
   | PErr _, Err _ => True
   | _, _ => False
   end.
 Proof. exact level_refines_t. Qed.
 Print Assumptions C05_level_types_partial.
 
-Theorem C05_simple_select_types_partial : forall (e : env) (strict : bool) (stmt : node) (targets rvs : list node),
+Theorem C05_simple_select_types_partial : forall (e : env) (strict deep : bool) (stmt : node) (targets rvs : list node),
   kind_of stmt = "SelectStmt" -> kid "WithClause" stmt = Nil ->
   kid "TargetList" stmt = NList targets -> targets <> [] ->
   kid "FromClause" stmt = NList rvs -> from_items (kid "FromClause" stmt) = rvs ->
@@ -89,13 +102,13 @@ Theorem C05_simple_select_types_partial : forall (e : env) (strict : bool) (stmt
                             kid "HavingClause" stmt; kid "SortClause" stmt])) = [] ->
   level_subselects (NList ([kid "FromClause" stmt; kid "WhereClause" stmt; kid "GroupClause" stmt;
                             kid "HavingClause" stmt; kid "SortClause" stmt] ++ map (kid "Val") targets ++ [])) = [] ->
-  level_refs (NList (map (kid "Val") targets)) = map (kid "Val") targets ->
+  (if deep then level_refs (NList (map (kid "Val") targets)) else direct_refs targets) = refs_of targets ->
   NoDup (map visible_name rvs) ->
   (forall sc, spec_scope (env_cat e) rvs = POk sc ->
-     Forall (fun it => NoDup (map sc_name (si_cols it))) sc /\ Forall (simple_target sc) targets) ->
+     Forall (fun it => NoDup (map sc_name (si_cols it))) sc /\ Forall (target_ok sc) targets) ->
   forall f g,
-  match describe (env_cat e) strict true (S (S f)) [] [] stmt, output_columns (S g) e [] stmt with
-  | POk row, Ok cols => Forall2 col_rel row cols
+  match describe (env_cat e) strict deep (S (S f)) [] [] stmt, output_columns (S g) e [] stmt with
+  | POk row, Ok cols => Forall2 row_rel row cols
   | PErr _, Err _ => True
   | _, _ => False
   end.
